@@ -26,7 +26,7 @@ BOUNDS = {"quick": dict(programs="generated leaves + 1-level wrappings (every 2n
                         expressions="C11 trees of depth <= 2 over this.a, this.b, constants (incl. str/bytes constants and unary operators)"),
           "thorough": dict(programs="all generated 1-level + 400 2-level + 400 expression structs + curated", inputs="0..8 bytes", expressions="depth <= 3")}
 OUTSIDE = ["documented exclusions (docs/compilation.rst): lambdas, _index/Index, _subcons/_stream, parsed hooks, discard, Debugger, enum34, error paths",
-           "inputs the interpreter rejects (compiled code does not check short reads)", "strings (stage 2)"]
+           "inputs the interpreter rejects (compiled code does not check short reads)", "repetitions of FlagsEnum elements (path count exceeds the per-instance bound; single FlagsEnum fields are covered)"]
 ASSUMPTIONS = ["generated source is executed under the same engine shims as the package (symx.shims.sh_compile / sh_exec)"]
 
 CURATED = [
@@ -51,6 +51,24 @@ CURATED = [
     "Struct('a'/Byte, 'b'/BitsSwapped(Byte), 'c'/ByteSwapped(Int16ub))", "VarInt", "ZigZag", "Flag", "Struct('v'/VarInt, 'd'/Bytes(this.v & 3))", "NullTerminated(GreedyBytes)", "NullStripped(GreedyBytes)",
     "Select(Int16ub, Byte)", "Optional(Int16ub)", "Struct('a'/Byte, 's'/Select(Const(b'\\x01'), Byte))", "NamedTuple('t', 'a b', Sequence(Byte, Byte))", "Struct('a'/Byte, 'b'/Struct('c'/Byte, 'd'/Bytes(this._.a & 1)))",
     "Struct('a'/Byte, 'b'/Struct('c'/Byte, 'd'/Computed(this._root.a + this.c)), 'e'/Bytes(this.b.d & 1))", "Struct('k'/Byte, 'v'/Bytes(this._params.n))",
+    # text constants inside expressions that the compiler inlines (conditions, counts, lengths, offsets, predicates)
+    "Struct('k'/Enum(Byte, a=1, b=2), 'v'/IfThenElse(this.k == 'a', Int16ub, Byte), 't'/Byte)", "Struct('k'/Enum(Byte, a=1), 'v'/If(this.k != 'a', Byte), 't'/Byte)",
+    "RepeatUntil(obj_ == 'stop', Enum(Byte, stop=0))", "Struct('k'/Enum(Byte, a=1), 'v'/Bytes(this.k == 'a'), 't'/Byte)", "Struct('k'/Enum(Byte, a=1), 'v'/Array((this.k == 'a') + 1, Byte))",
+    "Struct('k'/Mapping(Byte, {'x': 0, 'y': 1}), 'v'/Padded((this.k == 'x') + 1, Byte))", "Struct('k'/Enum(Byte, a=1), 'v'/FixedSized((this.k == 'a') + 1, GreedyBytes))",
+    "Struct('k'/Enum(Byte, a=1), 'v'/Pointer(this.k == 'a', Byte))", "Struct('k'/Enum(Byte, a=1), 'c'/Computed(this.k == 'a'), StopIf(this.k == 'a'), 'v'/Byte)",
+    "Struct('k'/Enum(Byte, a=1), 'v'/Rebuild(Byte, len_(this.k + 'x')), 'w'/Check(this.k != 'zz'))",
+    # unions with anonymous members before/after the selected one
+    "Struct('u'/Union('b', Padding(1), 'a'/Int16ub, 'b'/Byte), 't'/Byte)", "Union('b', Const(b'\\x01'), 'a'/Int16ub, 'b'/Byte, 'c'/Int24ub)", "Struct('u'/Union('b', 'a'/Int16ub, Padding(1), 'b'/Byte), 't'/Byte)",
+    "Struct('u'/Union(1, Padding(2), 'a'/Int16ub), 't'/Byte)",
+    # _root seen from an outermost nested context
+    "Sequence('n'/Byte, 'd'/Bytes(this._root.n & 3), 't'/Byte)", "Array(2, Sequence('n'/Byte, 'd'/Bytes(this._root.n & 1)))", "Struct('n'/Byte, 'd'/Bytes(this._root.n & 3))",
+    "IfThenElse(this._params.n == 1, Sequence('n'/Byte, 'd'/Bytes(this._root.n & 1)), Byte)", "Struct('k'/Byte, 'v'/Bytes(this._params.n), 's'/Sequence('n'/Byte, 'd'/Bytes(this._root.k & 1)))",
+    # offsets observed inside delimited regions (absolute in the interpreter)
+    "Struct('h'/Byte, 'p'/Prefixed(Byte, Struct('a'/Byte, 't'/Tell, 'g'/GreedyBytes)), 'z'/Tell)", "Struct('h'/Byte, 'f'/FixedSized(3, Struct('t'/Tell, 'r'/RawCopy(Byte), 'g'/GreedyBytes)), 'z'/Byte)",
+    "Struct('h'/Byte, 'p'/Prefixed(Byte, Prefixed(Byte, Struct('t'/Tell, 'g'/GreedyBytes))))", "Struct('h'/Int16ub, 'p'/Prefixed(Byte, Struct('q'/Pointer(1, Byte), 'g'/GreedyBytes), includelength=True))",
+    "Struct('h'/Byte, 'n'/NullTerminated(Struct('t'/Tell, 'g'/GreedyBytes)), 's'/NullStripped(Struct('t'/Tell, 'g'/GreedyBytes)))",
+    # bit-level integers outside Bitwise (the stream then holds one bit per byte)
+    ("BitsInteger(8, swapped=True)", 8), ("BitsInteger(16, signed=True, swapped=True)", 16), ("Struct('le'/Byte, 'v'/BitsInteger(16, swapped=this.le & 1))", 17), ("BitsInteger(12)", 12),
 ]
 EXPR_USES = [
     "Struct('a'/Byte, 'b'/Byte, 'c'/Computed({E}), 'p'/Byte)",
@@ -87,6 +105,8 @@ def instances(tier, seed):
         if tier == "quick" and any(x in t for x in ("GreedyRange(VarInt", "GreedyRange(ZigZag", "GreedyRange(Enum", "GreedyRange(FlagsEnum", "PrefixedArray(VarInt", "Array(2, ZigZag", "'b' / ZigZag",
                                                     "GreedyRange(CString", "GreedyRange(Pascal", "PrefixedArray(Int8ub, CString", "PrefixedArray(Int8ub, Pascal", "Array(this.cnt, Pascal", "Array(this.cnt, CString", "PrefixedArray(Int8ub, FlagsEnum", "Array(this.cnt, FlagsEnum")):
             continue
+        if any(x in t for x in ("GreedyRange(FlagsEnum", "PrefixedArray(Int8ub, FlagsEnum", "PrefixedArray(VarInt, FlagsEnum", "Array(this.cnt, FlagsEnum")):
+            continue          # every flag of every element forks parse and build twice: > 20000 paths (stated in OUTSIDE)
         seen.add(t)
         out.append(dict(name="gen  " + t, params=dict(kind="gen", spec=J(s), tier=tier, part="parse")))
         out.append(dict(name="genb " + t, params=dict(kind="gen", spec=J(s), tier=tier, part="build")))
@@ -97,7 +117,8 @@ def instances(tier, seed):
             t = u.format(E=e)
             out.append(dict(name="expr " + t, params=dict(kind="src", source=t, n=6)))
     for t in CURATED:
-        out.append(dict(name="feat " + t, params=dict(kind="src", source=t, n=6)))
+        t, n = t if isinstance(t, tuple) else (t, 6)
+        out.append(dict(name="feat " + t, params=dict(kind="src", source=t, n=n)))
     out.append(dict(name="sizeof twice", params=dict(kind="sizeof2")))
     return out
 
